@@ -2,6 +2,7 @@ import PedVerif.Lemmas.CallLayer4
 import PedVerif.Lemmas.CheckerEnvs
 import PedVerif.Props.GenWrap
 import PedVerif.Lemmas.CallLayer5
+import PedVerif.Props.C07
 /-!
 # C04 — @pedantic is transparent for conforming keyword calls
 
@@ -213,3 +214,20 @@ example : allConforming envW { baseFn with flags := flagsOfSource "f" "@pedantic
     [] [(1, .lit (.int 1))] (.ret (.lit (.int 1))) = true := by decide
 
 end PedVerif.Call
+
+
+/-! ## conforming calls of functions with TypeVars stay transparent when calls overlap
+
+Transparency must not depend on what else is going on: a call whose values are compatible is accepted whatever calls its body
+makes (recursion, other methods of the same instance, other functions) and from whatever call it was made - the bindings of
+one call are its own.  Corollary of the call-tree theorem of C07. -/
+namespace PedVerif.TypeVars
+
+theorem conforming_call_accepted_in_any_call_tree (env : Env) (wf : EnvWF env) (t : Tree)
+    (hv : ∀ c ∈ t.calls, InVocab env c ∧ Guard env c) (s : Stores) (hacc : Spec.specCall env t.call = .accept) :
+    (runTree env t s).out = .ok := by
+  have h := ((C07_tree_partial env wf).1 t hv s).1
+  rw [hacc] at h
+  exact h
+
+end PedVerif.TypeVars
